@@ -1095,7 +1095,7 @@ class Executor:
                             st.store[nframe + an + "#discr"] = Val(bvconst(av[2], 64), ("bv", 64, True))
                     return self.exec_block(st, cfn, "bb0", nframe, stack + [(fn, frame, dst_text, nxt)])
                 return self.exec_block(st, fn, nxt, frame, stack)
-            m = re.match(r"^(.*?)\((.*)\) -> unwind.*$", term) or re.match(r"^(.*?(?:expect_failed|unwrap_failed|panic\w*|slice_\w+_fail|handle_alloc_error|capacity_overflow)(?:::<.*>)?)\((.*)\) -> bb\d+$", term)
+            m = re.match(r"^(.*?)\((.*)\) -> unwind.*$", term) or re.match(r"^(.*?(?:expect_failed|unwrap_failed|panic\w*|slice_\w+_fail|handle_alloc_error|handle_error|capacity_overflow)(?:::<.*>)?)\((.*)\) -> bb\d+$", term)
             if m:
                 self.paths.append(Path(st, "panic", "diverging call " + m.group(1), fn))
                 return
